@@ -84,6 +84,11 @@ func (m *MessageCopyFromGenerator) GenerateFields(g *j.Group) {
 	}
 
 	for _, f := range m.Fields {
+		if f.IsPlaceholder {
+			// The placeholder of a message with no fields exists in the schema only:
+			// the struct has no such field, there is nothing to read
+			continue
+		}
 		g.Add(NewFieldCopyFromGenerator(f, m.i).Generate())
 	}
 }
